@@ -296,6 +296,9 @@ def two_watch(ctx, crate, crs, tag):
                             dd = b.origin(r["args"][0])
                             ls.add(dd["l"] if dd["k"] == "arg" else None)
                     src1 = ls.pop() if len(ls) == 1 else None
+                if src1 is None and a1["k"] == "call" and a1["t"].get("f") and a1["t"]["f"]["name"] == "new" and a1["t"]["args"]:
+                    dd = b.origin(a1["t"]["args"][0])          # Literal::new(helper, ..)
+                    src1 = dd["l"] if dd["k"] == "arg" else None
                 ok = a0["k"] == "arg" and src1 is not None and a0["l"] != src1
                 why = "at-most-one clauses join a candidate with a helper variable"
             else:
